@@ -411,9 +411,12 @@ pub fn run(args: &Args) -> i32 {
     let probe = run_case(&Case { scheme: "https", host: "example.com", port: None, peer: Peer::Tls { cert: "examplecom", alpn: ALPNS[3], truncate: None, stall: false }, client_alpn: true }, &fx);
     // the server's handshake flight: what the peer had sent when the client's handshake completed
     // (if the reference handshake itself fails the grid below reports why; use a nominal length then)
-    let flight_len = probe.peer_sent_at_connect.unwrap_or(1000);
+    // ECDSA signatures are randomised and their DER length varies by a byte or two between
+    // handshakes, so the last few offsets of the flight are left out (a cut there may fall after the
+    // end of another handshake's flight, which is then legitimately complete).
+    let flight_len = probe.peer_sent_at_connect.unwrap_or(1000).saturating_sub(8);
     let probe_ip = run_case(&Case { scheme: "wss", host: "[::1]", port: Some(8443), peer: Peer::Tls { cert: "iphost", alpn: ALPNS[0], truncate: None, stall: false }, client_alpn: false }, &fx);
-    let flight_len_ip = probe_ip.peer_sent_at_connect.unwrap_or(flight_len);
+    let flight_len_ip = probe_ip.peer_sent_at_connect.map(|n| n.saturating_sub(8)).unwrap_or(flight_len);
     let cs = cases(args.tier.is_thorough(), flight_len, flight_len_ip);
     let threads = crate::evidence::n_threads();
     let results = crate::evidence::par_map(cs.len(), threads, |i| {
